@@ -132,6 +132,64 @@ func genOpbCase(r *Rng, tier string) OpbCase {
 	return c
 }
 
+// genOpbUnits: OPB files decided (or nearly) at parse time: constraints that force all their
+// literals (sum of coefficients = degree), the same literal forced by several of them,
+// consistent with a hidden assignment, plus a few free variables.
+func genOpbUnits(r *Rng, tier string) OpbCase {
+	n := r.Range(1, 7)
+	hidden := make([]bool, n+1)
+	for i := range hidden {
+		hidden[i] = r.Bool()
+	}
+	var c OpbCase
+	var sb strings.Builder
+	m := r.Range(1, 5)
+	for i := 0; i < m; i++ {
+		k := r.Range(1, min2(n, 3))
+		vs := r.Perm(n)[:k]
+		lits := make([]int, k)
+		ws := make([]int, k)
+		deg := 0
+		for j, v := range vs {
+			lits[j] = v + 1
+			if !hidden[v+1] {
+				lits[j] = -(v + 1)
+			}
+			ws[j] = r.Range(1, 3)
+			deg += ws[j]
+		}
+		kind := "gteq"
+		if r.Chance(1, 4) {
+			kind = "eq"
+		}
+		c.Constrs = append(c.Constrs, Constr{Kind: kind, Lits: lits, Weights: ws, N: deg})
+		for j := range ws {
+			if j > 0 {
+				sb.WriteString(" ")
+			}
+			sb.WriteString(opbTerm(r, ws[j], lits[j], j == 0))
+		}
+		op := ">="
+		if kind == "eq" {
+			op = "="
+		}
+		sb.WriteString(fmt.Sprintf(" %s %d ;\n", op, deg))
+	}
+	if r.Chance(1, 3) { // a free clause over the remaining variables
+		lits := randClauseDistinct(r, n, min2(n, 2))
+		c.Constrs = append(c.Constrs, Constr{Kind: "gteq", Lits: lits, Weights: []int{1, 1}[:len(lits)], N: 1})
+		for j, l := range lits {
+			if j > 0 {
+				sb.WriteString(" ")
+			}
+			sb.WriteString(opbTerm(r, 1, l, j == 0))
+		}
+		sb.WriteString(" >= 1 ;\n")
+	}
+	c.Text = sb.String()
+	return c
+}
+
 func genFormatCase(r *Rng, tier string) FormatCase {
 	switch r.Intn(8) {
 	case 0, 1, 2:
@@ -145,6 +203,9 @@ func genFormatCase(r *Rng, tier string) FormatCase {
 		return FormatCase{Format: "dimacs", Cnf: &cc}
 	case 3, 4:
 		o := genOpbCase(r, tier)
+		if r.Chance(1, 4) {
+			o = genOpbUnits(r, tier)
+		}
 		return FormatCase{Format: "opb", Opb: &o}
 	case 5:
 		w := genMaxSatWCNF(r, tier)
@@ -223,6 +284,7 @@ func runFormatCase(o *Oracle, d json.RawMessage, oc *Outcome) {
 	}
 	oc.Key = keyOf(c)
 	oc.Tag("format:" + c.Format)
+	tokenDiff(o, oc, &c)
 	switch c.Format {
 	case "dimacs":
 		cc := c.Cnf
@@ -314,5 +376,113 @@ func runFormatCase(o *Oracle, d json.RawMessage, oc *Outcome) {
 	_ = reflect.DeepEqual
 	if len(oc.Sample) > 500 {
 		oc.Sample = oc.Sample[:500] + "…"
+	}
+}
+
+
+// tokenLines turns a text into the token lines of the Lean mirrors: integers as such, anything
+// else as w:<text>, lines separated by a bare ";". plusOK tells whether "+2" counts as an
+// integer (strconv.Atoi accepts it, solver.ParseCNF's readInt does not). For OPB the operator
+// spacing of spaceOutOperators and the final ';' are applied first (trusted glue).
+func tokenLines(text string, plusOK bool, opb bool) string {
+	var lines []string
+	for _, line := range strings.Split(strings.ReplaceAll(text, "\r", ""), "\n") {
+		if opb {
+			if line == "" || line[0] == '*' {
+				continue
+			}
+			if !strings.HasSuffix(line, ";") {
+				return "" // not representable: the mirror works on lines ending with ';'
+			}
+			body := line[:len(line)-1]
+			switch {
+			case strings.HasPrefix(body, "min:"):
+				body = "min: " + body[4:]
+			case strings.Contains(body, ">="):
+				body = strings.Replace(body, ">=", " >= ", 1)
+			default:
+				body = strings.Replace(body, "=", " = ", 1)
+			}
+			line = body + " ;"
+		}
+		var toks []string
+		for _, f := range strings.Fields(line) {
+			isInt := false
+			g := f
+			if len(g) > 0 && (g[0] == '-' || (plusOK && g[0] == '+')) {
+				g = g[1:]
+			}
+			if len(g) > 0 {
+				isInt = true
+				for _, ch := range g {
+					if ch < '0' || ch > '9' {
+						isInt = false
+					}
+				}
+			}
+			if isInt {
+				toks = append(toks, f)
+			} else {
+				toks = append(toks, "w:"+f)
+			}
+		}
+		lines = append(lines, strings.Join(toks, " "))
+	}
+	return strings.Join(lines, " ; ")
+}
+
+// tokenDiff: token-level mirrors of the parsers (GS.Formats) against the real parsers on the
+// same text: same accept/reject, same declared variables, and for explain.ParseCNF exactly the
+// same clauses and unit bindings.
+func tokenDiff(o *Oracle, oc *Outcome, c *FormatCase) {
+	switch c.Format {
+	case "dimacs":
+		toks := tokenLines(c.Cnf.Text, false, false)
+		a := o.Ask("pcnftok " + toks)
+		pb, err := solver.ParseCNF(strings.NewReader(c.Cnf.Text))
+		oc.Corr++
+		if (err == nil) != strings.HasPrefix(a, "ok ") {
+			oc.Fail("corr", "formats-mirror", "solver.ParseCNF", "Go error=%v, token-level mirror answered %q", err, a)
+		} else if err == nil {
+			var nv int
+			fmt.Sscanf(a, "ok %d", &nv)
+			if nv != pb.NbVars {
+				oc.Fail("corr", "formats-mirror", "solver.ParseCNF", "NbVars %d, mirror %d", pb.NbVars, nv)
+			}
+			want := "ok " + fmt.Sprint(c.Cnf.NbVars) + " | " + encCnf(c.Cnf.Clauses)
+			if strings.TrimSpace(a) != strings.TrimSpace(want) {
+				oc.Fail("corr", "formats-mirror", "solver.ParseCNF", "the mirror read %q from the text, the text was rendered from %q", a, want)
+			}
+		}
+	case "explain":
+		toks := tokenLines(c.Cnf.Text, true, false)
+		a := o.Ask("pxcnftok " + toks)
+		pb, err := explain.ParseCNF(strings.NewReader(c.Cnf.Text))
+		oc.Corr++
+		if (err == nil) != strings.HasPrefix(a, "ok ") {
+			oc.Fail("corr", "formats-mirror", "explain.ParseCNF", "Go error=%v, token-level mirror answered %q", err, a)
+		} else if err == nil {
+			got := fmt.Sprintf("ok %d %d | %s | %s", pb.NbVars, pb.NbClauses, encCnf(pb.Clauses), encInts(pb.VerifUnits()))
+			if strings.TrimSpace(got) != strings.TrimSpace(a) {
+				oc.Fail("corr", "formats-mirror", "explain.ParseCNF", "Go parsed %q, the mirror %q", got, a)
+			}
+		}
+	case "opb":
+		toks := tokenLines(c.Opb.Text, true, true)
+		if toks == "" {
+			return
+		}
+		a := o.Ask("popbfront " + toks)
+		pb, err := solver.ParseOPB(strings.NewReader(c.Opb.Text))
+		oc.Corr++
+		if (err == nil) != strings.HasPrefix(a, "ok ") {
+			oc.Fail("corr", "formats-mirror", "solver.ParseOPB", "Go error=%v, token-level mirror answered %q", err, a)
+		} else if err == nil {
+			var nv, un int
+			fmt.Sscanf(a, "ok nbvars=%d unsat=%d", &nv, &un)
+			if nv != pb.NbVars || (un == 1 && pb.Status != solver.Unsat) {
+				oc.Fail("corr", "formats-mirror", "solver.ParseOPB", "Go: NbVars %d status %v; mirror %q", pb.NbVars, pb.Status, a)
+			}
+		}
 	}
 }
